@@ -21,11 +21,11 @@
       (4) read the same rows from the generated tables (AHP/Gen/Tables.lean) — `tables_agree`;
     * models (2) and (3) return / keep the synchronised store next to the listing; (1) and (4) are pure.
 
-  One difference of BEHAVIOUR, outside the ASCII domain of DESIGN §7: models (1)–(3) strip with the ASCII `strip`
-  of Model/Basic.lean, model (4) with `pyStrip` (all of `str.isspace()`).  On a `class`/`style` value with a
-  non-ASCII white-space character at an end they differ (`fmt_differs_on_nbsp`); the library agrees with model (4).
-  The theorems about model (4) therefore carry `FmtDomain l` (no such character in a `class`/`style` value —
-  in particular every ASCII list, `fmtDomain_of_ascii`).
+  No difference of behaviour is left.  (This module first FOUND one: models (1)–(3) stripped with an ASCII-only
+  `strip`, model (4) with `pyStrip` = all of `str.isspace()`; on `class="\xa0a"` they differed and the library agreed
+  with model (4) — theorem `fmt_differs_on_nbsp`, side condition `FmtDomain`.  The shared `isWs` of Model/Basic.lean is
+  now Python's white space, `pyStrip = strip` (`strip_agree`), the side condition is gone and the former
+  counter-example is an instance of the agreement: `fmt_agrees_on_nbsp`.)
 -/
 import AHP.Lemmas.AttrStoresRender
 namespace AHP.AttrStores
@@ -49,30 +49,38 @@ theorem collapseSpaces_agree (s : Str) :
 
 example : collapseSpaces " a   b  ".toList = " a b ".toList := by decide
 
-/-- The class splitters agree on every string; the formatter's on every string without non-ASCII white space. -/
+/-- The four class splitters agree on every string. -/
 theorem classSplit_agree (s : Str) :
     Attrs.words s = classNamesOf (some s) ∧ Pk.classTokens s = classNamesOf (some s)
-      ∧ (NoUniWs s → Fmt.classNames s = classNamesOf (some s)) :=
-  ⟨words_attrs s, classTokens_pk s, fun h => classNames_fmt h⟩
+      ∧ Fmt.classNames s = classNamesOf (some s) :=
+  ⟨words_attrs s, classTokens_pk s, classNames_fmt s⟩
 
 example : classNamesOf (some "  a  b c ".toList) = ["a".toList, "b".toList, "c".toList] := by decide
-example : NoUniWs "  a  b c ".toList := noUniWs_of_ascii (by decide)
 
-/-- … and that side condition is needed: U+00A0 is stripped by `pyStrip` only. -/
-example : Fmt.classNames [Char.ofNat 0xa0, 'a'] = [['a']]
-    ∧ classNamesOf (some [Char.ofNat 0xa0, 'a']) = [[Char.ofNat 0xa0, 'a']] := by decide
+/-- non-ASCII white space: stripped at the ends (`str.strip()`), but only U+0020 separates names (`split(' ')`) — an
+    inner U+00A0 / U+3000 stays inside the name, as in the library -/
+example : classNamesOf (some [Char.ofNat 0xa0, 'a', ' ', 'b', Char.ofNat 0xa0, 'c', Char.ofNat 0x3000])
+      = [['a'], ['b', Char.ofNat 0xa0, 'c']]
+    ∧ Fmt.classNames [Char.ofNat 0xa0, 'a', ' ', 'b', Char.ofNat 0xa0, 'c', Char.ofNat 0x3000]
+      = [['a'], ['b', Char.ofNat 0xa0, 'c']] := by decide
 
-/-- `pyStrip` and `strip` agree exactly where no character is non-ASCII white space. -/
-theorem strip_agree {s : Str} (h : NoUniWs s) : Fmt.pyStrip s = strip s := pyStrip_eq h
+/-- `pyStrip` and `strip` are one function: both remove all of `str.isspace()`. -/
+theorem strip_agree (s : Str) : Fmt.pyStrip s = strip s := pyStrip_eq s
+
+example : strip [Char.ofNat 0x2003, '\x1c', 'a', ' ', 'b', Char.ofNat 0x85, '\n'] = ['a', ' ', 'b'] := by decide
 
 /-- The four `StyleAttribute.styleToDict`s (first colon found by index / by recursion / by `takeWhile`) agree. -/
 theorem styleToDict_agree (s : Str) :
     Attrs.styleToDict s = styleToDict s ∧ Pk.styleToDict s = styleToDict s
-      ∧ (NoUniWs s → Fmt.styleToDict s = styleToDict s) :=
-  ⟨styleToDict_attrs s, styleToDict_pk s, fun h => styleToDict_fmt h⟩
+      ∧ Fmt.styleToDict s = styleToDict s :=
+  ⟨styleToDict_attrs s, styleToDict_pk s, styleToDict_fmt s⟩
 
 example : styleToDict " Color : red ;; x:1; color: blue".toList
     = [("color".toList, "blue".toList), ("x".toList, "1".toList)] := by decide
+
+/-- names and values are stripped of non-ASCII white space too -/
+example : styleToDict [Char.ofNat 0xa0, 'x', Char.ofNat 0x3000, ':', Char.ofNat 0x2003, '1', Char.ofNat 0x85, ';', 'y', ':', '2',
+      Char.ofNat 0xa0] = [(['x'], ['1']), (['y'], ['2'])] := by decide
 
 /-- The four `_asStr`s agree on every map. -/
 theorem styleStr_agree (m : List (Str × Str)) :
@@ -136,7 +144,11 @@ def sampleTables : Attrs.Tables := ⟨binaryAttrs, [kSpell], []⟩
 theorem sampleTables_ok : TablesOK sampleTables ∧ BinaryOK sampleTables :=
   ⟨fun k => contains_single k kSpell, fun _ => rfl⟩
 
-theorem sample_domain : FmtDomain sample := fmtDomain_of_ascii (by decide)
+/-- the same with non-ASCII white space at the ends of the `class` and `style` values and of a style name / value -/
+def sampleUni : List Attr :=
+  [("class".toList, some [Char.ofNat 0xa0, 'x', ' ', ' ', 'y', Char.ofNat 0x3000]),
+   ("style".toList, some [Char.ofNat 0x2003, 'c', Char.ofNat 0xa0, ':', Char.ofNat 0x85, 'r', ';', '\x1c']),
+   ("id".toList, some [Char.ofNat 0xa0, 'i'])]
 
 /-- The invariant the equalities rest on: the keys of the dict stay pairwise distinct. -/
 theorem intake_keys_nodup (l : List Attr) : (keys (intake l AttrState.empty).d).Nodup := inv_intake l inv_empty
@@ -151,17 +163,16 @@ theorem init_eq_intake (l : List Attr) : Pk.Attrs.init l = some (toP (intake l A
   unfold Pk.Attrs.init; rw [empty_toP]; exact initGo_toP l inv_empty
 
 /-- (4) = (1) as states. -/
-theorem mkStore_eq_intake {l : List Attr} (h : FmtDomain l) : Fmt.mkStore l {} = toF (intake l AttrState.empty) := by
-  rw [empty_toF]; exact mkStore_toF l inv_empty h
+theorem mkStore_eq_intake (l : List Attr) : Fmt.mkStore l {} = toF (intake l AttrState.empty) := by
+  rw [empty_toF]; exact mkStore_toF l inv_empty
 
 /-- class names and style map are literally the same in the four stores -/
-theorem classes_style_agree {T : Attrs.Tables} (hT : TablesOK T) (tag : Str) (sc : Bool) {l : List Attr}
-    (h : FmtDomain l) :
+theorem classes_style_agree {T : Attrs.Tables} (hT : TablesOK T) (tag : Str) (sc : Bool) (l : List Attr) :
     let st := intake l AttrState.empty
     (Attrs.mk T tag sc l).cls = st.classes ∧ (Attrs.mk T tag sc l).sty = st.style
     ∧ (Pk.Attrs.init l).map (·.cls) = some st.classes ∧ (Pk.Attrs.init l).map (·.sty) = some st.style
     ∧ (Fmt.mkStore l {}).classes = st.classes ∧ (Fmt.mkStore l {}).style = st.style := by
-  simp only [mk_eq_intake hT, init_eq_intake, mkStore_eq_intake h, Option.map_some]
+  simp only [mk_eq_intake hT, init_eq_intake, mkStore_eq_intake l, Option.map_some]
   exact ⟨rfl, rfl, rfl, rfl, rfl, rfl⟩
 
 /-! ### the listing `getAttributesList()` after construction -/
@@ -177,17 +188,16 @@ theorem intake_view_eq_pickle (l : List Attr) :
   rw [init_eq_intake, Option.map_some, attrsList_toP (inv_intake l inv_empty)]
 
 /-- (4) = (1). -/
-theorem intake_view_eq_format {l : List Attr} (h : FmtDomain l) :
+theorem intake_view_eq_format (l : List Attr) :
     (Fmt.mkStore l {}).items = (intake l AttrState.empty).view := by
-  rw [mkStore_eq_intake h]; exact items_toF (inv_intake l inv_empty)
+  rw [mkStore_eq_intake l]; exact items_toF (inv_intake l inv_empty)
 
 /-- The listing after construction is one list in all four models. -/
-theorem intake_view_eq_all {T : Attrs.Tables} (hT : TablesOK T) (tag : Str) (sc : Bool) {l : List Attr}
-    (h : FmtDomain l) :
+theorem intake_view_eq_all {T : Attrs.Tables} (hT : TablesOK T) (tag : Str) (sc : Bool) (l : List Attr) :
     (Attrs.attrsList (Attrs.mk T tag sc l)).1 = (intake l AttrState.empty).view
     ∧ (Pk.Attrs.init l).map Pk.Attrs.attrsList = some (intake l AttrState.empty).view
     ∧ (Fmt.mkStore l {}).items = (intake l AttrState.empty).view :=
-  ⟨intake_view_eq_attrs hT tag sc l, intake_view_eq_pickle l, intake_view_eq_format h⟩
+  ⟨intake_view_eq_attrs hT tag sc l, intake_view_eq_pickle l, intake_view_eq_format l⟩
 
 /-- non-vacuity: the sample list meets the hypotheses and its listing is far from trivial -/
 example : (intake sample AttrState.empty).view =
@@ -204,12 +214,24 @@ example : (Attrs.attrsList (Attrs.mk ⟨[], [], []⟩ ['p'] false [("spellcheck"
     ∧ (intake [("spellcheck".toList, some ['x'])] AttrState.empty).view
       = [("spellcheck".toList, some "true".toList)] := by decide
 
-/-- `FmtDomain` is needed, and this is the one input class where the models disagree: a `class` value that starts
-    with U+00A0.  The library (`str.strip()`) does what model (4) does. -/
-theorem fmt_differs_on_nbsp :
+/-- The input on which the models used to disagree (a `class` value that starts with U+00A0: the ASCII-only `strip`
+    of models (1)–(3) kept it, `str.strip()` and model (4) drop it) — now an instance of `intake_view_eq_all`; replaces
+    the former counter-example `fmt_differs_on_nbsp`. -/
+theorem fmt_agrees_on_nbsp :
     (Fmt.mkStore [("class".toList, some [Char.ofNat 0xa0, 'a'])] {}).items = [("class".toList, some ['a'])]
-    ∧ (intake [("class".toList, some [Char.ofNat 0xa0, 'a'])] AttrState.empty).view
-        = [("class".toList, some [Char.ofNat 0xa0, 'a'])] := by decide
+    ∧ (intake [("class".toList, some [Char.ofNat 0xa0, 'a'])] AttrState.empty).view = [("class".toList, some ['a'])]
+    ∧ (Attrs.attrsList (Attrs.mk sampleTables ['p'] false [("class".toList, some [Char.ofNat 0xa0, 'a'])])).1
+        = [("class".toList, some ['a'])]
+    ∧ (Pk.Attrs.init [("class".toList, some [Char.ofNat 0xa0, 'a'])]).map Pk.Attrs.attrsList
+        = some [("class".toList, some ['a'])] := by decide
+
+/-- non-vacuity beyond ASCII: class and style lose the white space of `str.isspace()` at their ends, the plain attribute
+    `id` keeps its value untouched; one listing in the four models -/
+example : (intake sampleUni AttrState.empty).view =
+    [("style".toList, some "c: r".toList), ("id".toList, some [Char.ofNat 0xa0, 'i']), ("class".toList, some "x y".toList)] := by
+  decide
+
+example : (Fmt.mkStore sampleUni {}).items = (intake sampleUni AttrState.empty).view := intake_view_eq_format sampleUni
 
 /-! ### the rendered start tag -/
 
@@ -225,10 +247,10 @@ theorem startTag_eq_pickle (name : Str) (sc : Bool) (l : List Attr) :
   rw [init_eq_intake, Option.map_some, startTag_toP name sc (inv_intake l inv_empty)]
 
 /-- (4) = (1): the attribute string, and the start tag with the formatter's indent prefix. -/
-theorem startTag_eq_format {l : List Attr} (h : FmtDomain l) (name indent : Str) (sc : Bool) :
+theorem startTag_eq_format (l : List Attr) (name indent : Str) (sc : Bool) :
     Fmt.attrString (Fmt.mkStore l {}) = renderAttrs (intake l AttrState.empty).view
     ∧ Fmt.startTagNormal name (Fmt.mkStore l {}) sc indent = startTagI indent name (intake l AttrState.empty) sc := by
-  rw [mkStore_eq_intake h]
+  rw [mkStore_eq_intake l]
   refine ⟨?_, startTag_toF name indent sc (inv_intake l inv_empty)⟩
   rw [attrString_eq, items_toF (inv_intake l inv_empty)]
 
@@ -251,6 +273,6 @@ example : (Attrs.startTag sampleTables (Attrs.mk sampleTables "DIV".toList false
 
 example : Fmt.startTagNormal "div".toList (Fmt.mkStore sample {}) false "\n  ".toList
     = startTagI "\n  ".toList "div".toList (intake sample AttrState.empty) false :=
-  (startTag_eq_format sample_domain _ _ _).2
+  (startTag_eq_format sample _ _ _).2
 
 end AHP.AttrStores
